@@ -5,6 +5,7 @@ mod l_unify;
 mod l_load;
 mod l_compile;
 mod l_resolve;
+mod l_wasm;
 
 fn main() {
     let args: Vec<String> = std::env::args().collect();
@@ -15,6 +16,7 @@ fn main() {
         "load" => l_load::run(),
         "compile" => l_compile::run(),
         "resolve" => l_resolve::run(),
+        "wasm" => l_wasm::run(),
         _ => {
             eprintln!("usage: oalimpl <layer>");
             std::process::exit(2);
